@@ -145,6 +145,24 @@ var counters = ev.Register(&ev.P[dayCase]{
 			h, mi, sec = 0, 0, 0
 		}
 		l := calendar.NewSolar(y, mo, d, h, mi, sec).GetLunar()
+		// the object is not fresh when the counters are read: one of the term look-ups (by instant or by whole day,
+		// backwards or forwards) has been asked first, which one rotates with the day
+		switch j % 9 {
+		case 1:
+			_ = l.GetPrevJieQi()
+		case 2:
+			_ = l.GetNextJieQiByWholeDay(true)
+		case 3:
+			_ = l.GetPrevJieQiByWholeDay(false)
+		case 4:
+			_ = l.GetNextJie()
+		case 5:
+			_ = l.GetPrevQiByWholeDay(true)
+		case 6:
+			_ = l.GetCurrentJieQi()
+		case 7:
+			_ = l.GetNextQiByWholeDay(false)
+		}
 		w := model(j)
 		day := fmt.Sprintf("%04d-%02d-%02d %02d:%02d:%02d", y, mo, d, h, mi, sec)
 		for _, e := range w.edge {
